@@ -1,0 +1,142 @@
+//go:build verif
+
+package bed
+
+// Bounded stand-ins for the round-trip and layout clauses of C02/C04. Only compiled with -tags verif.
+
+import (
+	"bytes"
+	"fmt"
+	"image/color"
+	"reflect"
+	"strings"
+	"testing"
+
+	"github.com/biogo/biogo/feat"
+	"github.com/biogo/biogo/seq"
+)
+
+const verifMaxInt = int(^uint(0) >> 1)
+
+func verifBed12s() []*Bed12 {
+	coords := []int{-2, -1, 0, 1, 7, verifMaxInt}
+	var out []*Bed12
+	i := 0
+	for _, s := range coords {
+		for _, e := range coords {
+			i++
+			b := &Bed12{
+				Chrom: []string{"chr1", "c 2", "x"}[i%3], ChromStart: s, ChromEnd: e,
+				FeatName: []string{"n", "a b", "+"}[i%3], FeatScore: []int{0, -1, 1000, verifMaxInt}[i%4],
+				FeatStrand: []seq.Strand{seq.Plus, seq.Minus, seq.None}[i%3],
+				ThickStart: coords[i%len(coords)], ThickEnd: coords[(i+1)%len(coords)],
+			}
+			if i%2 == 0 {
+				b.Rgb = color.RGBA{R: uint8(i), G: uint8(7 * i), B: uint8(255 - i), A: 0xff}
+			}
+			if i%3 == 0 {
+				b.BlockCount, b.BlockSizes, b.BlockStarts = 1, []int{s}, []int{e}
+			} else {
+				b.BlockCount, b.BlockSizes, b.BlockStarts = 2, []int{1, verifMaxInt}, []int{0, -3}
+			}
+			out = append(out, b)
+		}
+	}
+	return out
+}
+
+// verifProject gives the BedN record made of the first n columns of b.
+func verifProject(b *Bed12, n int) feat.Feature {
+	switch n {
+	case 3:
+		return &Bed3{b.Chrom, b.ChromStart, b.ChromEnd}
+	case 4:
+		return &Bed4{b.Chrom, b.ChromStart, b.ChromEnd, b.FeatName}
+	case 5:
+		return &Bed5{b.Chrom, b.ChromStart, b.ChromEnd, b.FeatName, b.FeatScore}
+	case 6:
+		return &Bed6{b.Chrom, b.ChromStart, b.ChromEnd, b.FeatName, b.FeatScore, b.FeatStrand}
+	}
+	c := *b
+	return &c
+}
+
+func verifReadAll(t *testing.T, data []byte, n int) []feat.Feature {
+	r, err := NewReader(bytes.NewReader(data), n)
+	if err != nil {
+		t.Fatal(err)
+	}
+	var out []feat.Feature
+	for i := 0; i < 100; i++ {
+		f, err := r.Read()
+		if err != nil {
+			return out
+		}
+		out = append(out, f)
+	}
+	t.Fatal("reader did not reach EOF")
+	return nil
+}
+
+// TestVerifBounded_C02_BedRoundTrip: every BedN record written at every admissible width m <= N reads back as its first m columns.
+func TestVerifBounded_C02_BedRoundTrip(t *testing.T) {
+	cases, nontrivial := 0, 0
+	types := []int{3, 4, 5, 6, 12}
+	for _, full := range verifBed12s() {
+		for _, n := range types {
+			orig := verifProject(full, n)
+			for _, m := range types {
+				if m > n {
+					continue
+				}
+				cases++
+				nontrivial++
+				var buf bytes.Buffer
+				w, _ := NewWriter(&buf, m)
+				cnt, err := w.Write(orig)
+				if err != nil {
+					t.Fatalf("write Bed%d at width %d: %v", n, m, err)
+				}
+				if cnt != buf.Len() {
+					t.Fatalf("Bed%d at width %d: Write reported %d bytes, emitted %d", n, m, cnt, buf.Len())
+				}
+				got := verifReadAll(t, buf.Bytes(), m)
+				want := verifProject(full, m)
+				if len(got) != 1 || !reflect.DeepEqual(got[0], want) {
+					t.Fatalf("Bed%d written at width %d: line %q read back as %v, want %v", n, m, buf.String(), got, want)
+				}
+			}
+		}
+	}
+	fmt.Printf("BOUNDED name=C02.bed-roundtrip cases=%d nontrivial=%d exhaustive=true domain=%q\n", cases, nontrivial, "36 coordinate pairs over {-2,-1,0,1,7,maxInt} x 5 record types x every narrower width; 3 names, 4 scores, 3 strands, zero/opaque colours, 1-2 blocks")
+}
+
+// TestVerifBounded_C04_BedLayout: CRLF or LF, final newline present or not.
+func TestVerifBounded_C04_BedLayout(t *testing.T) {
+	cases, nontrivial := 0, 0
+	all := verifBed12s()
+	for _, n := range []int{3, 4, 5, 6, 12} {
+		for start := 0; start+3 <= len(all); start += 3 {
+			var buf bytes.Buffer
+			w, _ := NewWriter(&buf, n)
+			var want []feat.Feature
+			for _, b := range all[start : start+3] {
+				f := verifProject(b, n)
+				want = append(want, f)
+				if _, err := w.Write(f); err != nil {
+					t.Fatal(err)
+				}
+			}
+			base := strings.TrimSuffix(buf.String(), "\n")
+			for vi, v := range []string{base + "\n", base, strings.ReplaceAll(base, "\n", "\r\n") + "\r\n", strings.ReplaceAll(base, "\n", "\r\n")} {
+				cases++
+				nontrivial++
+				got := verifReadAll(t, []byte(v), n)
+				if !reflect.DeepEqual(got, want) {
+					t.Fatalf("Bed%d layout variant %d: %d features read, want %d (%q)", n, vi, len(got), len(want), v)
+				}
+			}
+		}
+	}
+	fmt.Printf("BOUNDED name=C04.bed-layout cases=%d nontrivial=%d exhaustive=true domain=%q\n", cases, nontrivial, "files of 3 records of each type x {LF, LF without final newline, CRLF, CRLF without final newline}")
+}
